@@ -310,7 +310,10 @@ pub fn txs_to_csv_table(txs: &Vec<CsvTx>) -> PlainCsvTable {
             optional_cols_in_use.insert(CsvCol::SPLIT_RATIO);
         }
         if let Some(af) = &tx.affiliate {
-            if *af != Affiliate::default() {
+            // A split addressed to the default affiliate must keep its
+            // affiliate: written blank it reads back as a split for all
+            // affiliates.
+            if *af != Affiliate::default() || tx.action == Some(TxAction::Split) {
                 optional_cols_in_use.insert(CsvCol::AFFILIATE);
             }
         }
